@@ -308,7 +308,7 @@ func TestVerifC15(t *testing.T) {
 	c15Emit(out, "corpus", nil)
 
 	// generated cases: 1-3 groups; sizes ramp with the case index
-	n := out.Count(4000, 150000)
+	n := out.Count(4000, 60000)
 	for i := 0; i < n; i++ {
 		r := rng.Fork()
 		maxLen := 2 + (i*14)/n // 2..16
